@@ -4,12 +4,13 @@ import Driver.Sim
 import Driver.Helpers
 import Driver.MP
 import Driver.Graph
+import Driver.Meio
 open Lean
 
 namespace Driver
 
 def allHandlers : List (String × Handler) :=
-  Driver.WW.handlers ++ Driver.Sim.handlers ++ Driver.Helpers.handlers ++ Driver.MP.handlers ++ Driver.Graph.handlers
+  Driver.WW.handlers ++ Driver.Sim.handlers ++ Driver.Helpers.handlers ++ Driver.MP.handlers ++ Driver.Graph.handlers ++ Driver.Meio.handlers
 
 def dispatch (line : String) : String :=
   match Json.parse line with
